@@ -71,8 +71,9 @@ def make_leaf_class():
         _sizing = frozenset(["box", "flow"])
         ignore_focus = False
 
-        def __init__(self, nid, sel, keys, ctx):
+        def __init__(self, nid, sel, keys, ctx, nrows=1):
             super().__init__()
+            self.nrows = nrows
             self.nid = nid
             self._sel = bool(sel)
             self.keys = set(keys)
@@ -82,11 +83,11 @@ def make_leaf_class():
             return self._sel
 
         def rows(self, size, focus=False):
-            return 1
+            return self.nrows
 
         def render(self, size, focus=False):
             self.ctx.log.append(("render", self.nid, bool(focus), self.ctx.on_focus_path(self)))
-            return urwid.SolidCanvas(marker(self.nid), size[0], size[1] if len(size) > 1 else 1)
+            return urwid.SolidCanvas(marker(self.nid), size[0], size[1] if len(size) > 1 else self.nrows)
 
         def keypress(self, size, key):
             self.ctx.log.append(("key", self.nid, key, self.ctx.on_focus_path(self)))
@@ -109,7 +110,11 @@ def build(case):
 
     def pile_item(c):
         n = nodes[c]
-        return ("given", n["ht"], mk(c)) if n.get("box") else ("pack", mk(c))
+        if n.get("box"):
+            return ("given", n["ht"], mk(c))
+        if n.get("wt"):
+            return ("weight", n["wt"], mk(c))
+        return ("pack", mk(c))
 
     def mk(i):
         if objs[i] is not None:
@@ -117,11 +122,12 @@ def build(case):
         n = nodes[i]
         k = n["k"]
         if k == "leaf":
-            w = SpyLeaf(i, n["sel"], n["keys"], ctx)
+            w = SpyLeaf(i, n["sel"], n["keys"], ctx, 1 if n.get("box") else max(1, n.get("ht", 0)))
         elif k == "pile":
             w = urwid.Pile([pile_item(c) for c in n["ch"]], focus_item=n.get("f"))
         elif k == "cols":
-            items = [("given", nodes[c]["wd"], mk(c)) for c in n["ch"]]
+            items = [("weight", nodes[c]["wt"], mk(c)) if nodes[c].get("wt") else ("given", nodes[c]["wd"], mk(c))
+                     for c in n["ch"]]
             boxc = [j for j, c in enumerate(n["ch"]) if nodes[c].get("box")]
             w = urwid.Columns(items, dividechars=n.get("dv", 0), focus_column=n.get("f"), box_columns=boxc)
         elif k == "grid":
@@ -213,8 +219,14 @@ def item_for(ctx, w, cid):
     n = ctx.nodes[cid]
     c = ctx.objs[cid]
     if k == "pile":
-        return (c, w.options("given", n["ht"])) if n.get("box") else (c, w.options("pack"))
+        if n.get("box"):
+            return (c, w.options("given", n["ht"]))
+        if n.get("wt"):
+            return (c, w.options("weight", n["wt"]))
+        return (c, w.options("pack"))
     if k == "cols":
+        if n.get("wt"):
+            return (c, w.options("weight", n["wt"], bool(n.get("box"))))
         return (c, w.options("given", n["wd"], bool(n.get("box"))))
     if k == "grid":
         return (c, w.options())
@@ -561,17 +573,45 @@ class Mirror:
             return [(p, c) for p, c in sorted(self.parts[i].items()) if c is not None]
         return []
 
-    def height(self, c):
-        n = self.nodes[c]
-        return n["ht"] if n.get("box") else self.rows(c)
+    def pile_heights(self, i):
+        """Pile.get_rows_sizes: rows of every child (box mode with weights when the Pile itself has a given height)"""
+        n = self.nodes[i]
+        kids = self.kids[i]
+        opt = lambda c: (1 if self.nodes[c].get("box") else (2 if self.nodes[c].get("wt") else 0))
+        if n.get("box") and any(opt(c) == 2 for c in kids):
+            remaining = n["ht"]
+            wtotal = 0
+            out = []
+            for c in kids:
+                o = opt(c)
+                if o == 0:
+                    r = self.rows(c)
+                    out.append(r)
+                    remaining -= r
+                elif o == 1:
+                    out.append(self.nodes[c]["ht"])
+                    remaining -= self.nodes[c]["ht"]
+                else:
+                    out.append(None)
+                    wtotal += self.nodes[c]["wt"]
+            remaining = max(remaining, 0)
+            for j, c in enumerate(kids):
+                if out[j] is None:
+                    w = self.nodes[c]["wt"]
+                    r = int(float(remaining) * w / wtotal + 0.5)
+                    out[j] = r
+                    remaining -= r
+                    wtotal -= w
+            return out
+        return [self.nodes[c]["ht"] if self.nodes[c].get("box") else self.rows(c) for c in kids]
 
     def rows(self, i):
         n = self.nodes[i]
         k = n["k"]
         if k == "leaf":
-            return 1
+            return 1 if n.get("box") else max(1, n.get("ht", 0))
         if k == "pile":
-            return sum(self.height(c) for c in self.kids[i])
+            return sum(self.pile_heights(i))
         if k == "cols":
             return max([1] + [self.rows(c) for c in self.kids[i] if not self.nodes[c].get("box")])
         if k == "grid":
@@ -600,10 +640,21 @@ class Mirror:
         if k == "grid":
             return n["wd"] >= 1
         if k == "pile":
-            if alloc is not None and self.rows(i) > alloc:
+            hs = self.pile_heights(i)
+            if alloc is not None and sum(hs) > alloc:
                 return False
-            for c in self.kids[i]:
+            boxed = bool(n.get("box"))
+            for c, r in zip(self.kids[i], hs):
                 cn = self.nodes[c]
+                if cn.get("wt") and not cn.get("box"):
+                    if n.get("nowt"):
+                        return False          # a Pile in a Frame/Overlay slot is rendered as a box: no weights there
+                    if cn["k"] not in ("leaf", "lbox") or (cn["k"] == "lbox" and not boxed):
+                        return False
+                    if boxed:
+                        if r < 1 or not self.fits(c, r):
+                            return False
+                        continue
                 if not self.fits(c, cn["ht"] if cn.get("box") else None):
                     return False
             return True
@@ -611,8 +662,10 @@ class Mirror:
             ch = self.kids[i]
             if len(ch) > KCAP:
                 return False
-            if sum(self.nodes[c]["wd"] for c in ch) + n.get("dv", 0) * max(0, len(ch) - 1) > n["wd"]:
+            if sum((1 if self.nodes[c].get("wt") else self.nodes[c]["wd"]) for c in ch) + n.get("dv", 0) * max(0, len(ch) - 1) > n["wd"]:
                 return False
+            if any(self.nodes[c].get("wt") and self.nodes[c]["k"] != "leaf" for c in ch):
+                return False      # weighted columns: leaves only (their width is not static)
             if alloc is not None and not any(self.nodes[c]["k"] in ("leaf", "lbox", "frame", "ovl") for c in ch):
                 return False      # a box Columns needs a box-capable child (else urwid rejects the canvas size)
             if ch and alloc is None and max(self.rows(c) for c in ch) == 0:
@@ -690,7 +743,23 @@ class Gen:
         self.nodes.append(n)
         return len(self.nodes) - 1
 
-    def leaf(self, wd):
+    def leaf(self, wd, tall=False, weight=False):
+        """tall: a flow leaf of 2-3 rows now and then; weight: a ('weight', n) Pile child now and then"""
+        i = self._leaf(wd)
+        r = self.rng
+        if tall and r.random() < 0.15:
+            self.nodes[i]["ht"] = r.choice([2, 2, 3])
+        if weight and r.random() < 0.3:
+            self.nodes[i]["wt"] = r.choice([1, 1, 2, 3])
+        return i
+
+    def wleaf(self, wd):
+        """a ('weight', n) leaf"""
+        i = self._leaf(wd)
+        self.nodes[i]["wt"] = self.rng.choice([1, 1, 2, 3])
+        return i
+
+    def _leaf(self, wd):
         r = self.rng
         sel = 1 if r.random() < 0.6 else 0
         keys = []
@@ -713,25 +782,33 @@ class Gen:
     def flow(self, depth, wd, nobox=False):
         r = self.rng
         if depth >= self.maxdepth or wd < 4 or r.random() < 0.3:
-            return self.leaf(wd)
+            return self.leaf(wd, tall=True)
         k = r.choice(["pile", "pile", "cols", "cols", "grid"])
         if k == "pile":
             ch = []
             for _ in range(self.nkids()):
                 if not nobox and depth + 1 < self.maxdepth and r.random() < 0.12:
                     ch.append(self.box(depth + 1, wd, r.choice([5, 8, 12]), asbox=True))
+                elif r.random() < 0.1:
+                    ch.append(self.leaf(wd, tall=True, weight=True))     # in a flow Pile a weighted child is packed
                 else:
                     ch.append(self.flow(depth + 1, wd, nobox))
             return self.new({"k": "pile", "ch": ch, "f": self.focus_arg(len(ch)), "wd": wd})
         if k == "cols":
             dv = r.choice([0, 0, 1, 2])
             sw = max(1, (wd - dv * (KCAP - 1)) // KCAP)
-            ch = [self.flow(depth + 1, sw, nobox) for _ in range(min(self.nkids(), KCAP))]
+            ch = [self.wleaf(sw) if r.random() < 0.15 else self.flow(depth + 1, sw, nobox) for _ in range(min(self.nkids(), KCAP))]
             return self.new({"k": "cols", "ch": ch, "f": self.focus_arg(len(ch)), "dv": dv, "wd": wd})
         cw = r.choice([1, 2, 3, max(1, wd // 3), max(1, wd // 2), wd, wd + 2])
         hs = r.choice([0, 1, 2])
         vs = r.choice([0, 1, 1, 2])
         n = r.choice([0, 1, 2, 3, 4, 5, 6, 7])
+        if n and n * cw + (n - 1) * hs == wd:
+            # at exactly its natural width urwid keeps the constructor's display widget (and its pref_col state)
+            if n > 1:
+                hs += 1
+            else:
+                cw = max(1, cw - 1)
         ch = [self.leaf(cw) for _ in range(n)]
         f = None
         if n and r.random() < 0.4:
@@ -777,11 +854,26 @@ class Gen:
             return self.new(dict({"k": "ovl", "top": top, "bot": bot}, **extra))
         if k == "pile":
             ch = []
+            boxed = asbox or depth == 0          # this Pile is given a height: a box Pile, weighted children share the rest
             for _ in range(self.nkids()):
-                if depth + 1 < self.maxdepth and r.random() < 0.35:
+                q = r.random()
+                if depth + 1 < self.maxdepth and q < 0.3:
                     ch.append(self.box(depth + 1, wd, r.choice([5, 8, 12, 20]), asbox=True))
+                elif boxed and q < 0.5:
+                    if depth + 1 < self.maxdepth and r.random() < 0.4:
+                        c = self.box(depth + 1, wd, 8, asbox=False)
+                        if self.nodes[c]["k"] not in ("leaf", "lbox"):
+                            c = self._leaf(wd)
+                    else:
+                        c = self._leaf(wd)
+                    self.nodes[c]["wt"] = r.choice([1, 1, 2, 3])
+                    ch.append(c)
                 else:
                     ch.append(self.flow(depth + 1, wd))
+            if depth == 0:
+                extra = dict(extra, box=1)
+            if not boxed:
+                extra = dict(extra, nowt=1)
             return self.new(dict({"k": "pile", "ch": ch, "f": self.focus_arg(len(ch))}, **extra))
         # box columns
         dv = r.choice([0, 0, 1, 2])
@@ -790,6 +882,8 @@ class Gen:
         for _ in range(min(self.nkids(), KCAP)):
             if depth + 1 < self.maxdepth and r.random() < 0.4:
                 ch.append(self.box(depth + 1, sw, ht, asbox=True))
+            elif r.random() < 0.15:
+                ch.append(self.wleaf(sw))
             else:
                 ch.append(self.flow(depth + 1, sw))
         return self.new(dict({"k": "cols", "ch": ch, "f": self.focus_arg(len(ch)), "dv": dv}, **extra))
@@ -821,7 +915,10 @@ class Gen:
         elif k == "cols":
             dv = n.get("dv", 0)
             sw = max(1, (n["wd"] - dv * (KCAP - 1)) // KCAP)
-            i = self.flow(self.maxdepth - r.choice([0, 1, 1, 2]), sw, nobox=True)
+            i = self.wleaf(sw) if r.random() < 0.2 else self.flow(self.maxdepth - r.choice([0, 1, 1, 2]), sw, nobox=True)
+        elif k == "pile" and not n.get("nowt") and r.random() < 0.2:
+            i = self._leaf(n["wd"])
+            self.nodes[i]["wt"] = r.choice([1, 2, 3])
         else:
             i = self.flow(self.maxdepth - r.choice([0, 1, 1, 2]), n["wd"], nobox=True)
         for j in range(before, len(self.nodes)):
@@ -1162,7 +1259,7 @@ def enc_key(k):
 
 def enc_node(n):
     k = n["k"]
-    l = [KINDC[k], n.get("wd", 0), 1 if n.get("box") else 0, n.get("ht", 0)]
+    l = [KINDC[k], n.get("wd", 0), 1 if n.get("box") else 0, n.get("ht", 0), n.get("wt", 0)]
     if k == "leaf":
         l += [1 if n["sel"] else 0, len(n["keys"])]
         for key in n["keys"]:
@@ -1311,17 +1408,21 @@ class C08(core.Check):
                   "selectable() of a Pile/Columns equals any(child.selectable()) right after its contents were set (GridFlow: always); "
                   "the focus path read from a tree can be written back to any later heap of the same shape and is read back identically "
                   "(tree hypothesis: no widget twice on the path); a key not bound to a navigation command that no offered leaf "
-                  "handles comes back unchanged whenever keypress returns - no premise on caches or pending requests since the "
-                  "repairs of Pile.keypress and of the empty Columns (unhandled_key_unchanged).  PARTIAL (proved under the hypothesis "
-                  "that no ListBox has a pending set_focus request, which every render establishes): a key is offered only to leaves on "
-                  "the focus path; only leaves on the focus path are rendered with focus=True and render changes nothing.  PARTIAL "
-                  "(local): the child that Pile/Columns up/down/left/right, Columns.move_cursor_to_coords and the GridFlow rows give "
-                  "the focus to had selectable()==True; the tree-wide statement is a Definition decided by correspondence + oracle. "
-                  "REFUTED with a model witness replayed on the code: the Frame clause for Frame(body, header=None, "
-                  "focus_part='header') - the one known finding.  The range tests of the focus_position setters and the "
-                  "key->command table are re-translated from the source each run; all other model code is hand-written and tied by an "
-                  "exact extracted-model correspondence (8.6k cases per quick run: op results, offered leaves, leaves rendered with "
-                  "focus, every container's focus_position and selectable(), get_focus_path after every operation).")
+                  "handles comes back unchanged whenever keypress returns (unhandled_key_unchanged).  Also with PENDING ListBox "
+                  "set_focus requests, for every state: a key is offered only along dispatch steps from a container to the widget "
+                  "that is its focus in the heap in which it dispatches - for a ListBox the heap after the pending request was "
+                  "completed (key_only_on_focus_path, KeyRoute); render passes focus=True only along such steps "
+                  "(only_focus_path_rendered_with_focus, FocusRender); when nothing is pending these routes are the focus path of the "
+                  "heap before the call and render changes nothing.  Tree-wide: after a keypress with an arrow key every focus anywhere "
+                  "in the tree is the one it was or a child whose selectable() was True (arrows_land_on_selectable; premise: no pending "
+                  "ListBox request, which every render establishes), plus the local statements at the decision points of Pile / Columns "
+                  "/ Columns.move_cursor_to_coords.  REFUTED with a model witness replayed on the code: the Frame clause for "
+                  "Frame(body, header=None, focus_part='header') - the one known finding.  The range tests of the focus_position "
+                  "setters and the key->command table are re-translated from the source each run; all other model code is hand-written "
+                  "and tied by an exact extracted-model correspondence (9.5k cases per quick run: op results, offered leaves, leaves "
+                  "rendered with focus, every container's focus_position and selectable(), get_focus_path after every operation).  "
+                  "Geometry modelled: given and WEIGHTED Pile items (box-mode row distribution) and Columns (column_widths with "
+                  "weights), flow leaves of 1-3 rows, GridFlow wrapping, pref_col / move_cursor_to_coords through nested containers.")
     level_note = ("Trusted: Coq kernel, py2v translator, extraction + OCaml driver, the hand-written model and its geometry abstraction "
                   "(everything-fits regime: given widths/heights, all ListBox items visible, mouse press given as the child route "
                   "computed by the harness from the rendered canvas), the Python oracle and spy leaves.  Not covered: page up/down in "
@@ -1345,9 +1446,12 @@ class C08(core.Check):
     ]
     assumptions = [
         "leaves are non-cursor widgets of one row without get_pref_col/move_cursor_to_coords; no decoration widgets between containers",
-        "Pile children are ('pack') or ('given', n); Columns children ('given', w) and all columns fit; GridFlow cells are leaves of the "
-        "GridFlow's cell width; every ListBox item is visible and has >= 1 row (ListBox up/down never scroll); ListBox body is a "
-        "SimpleFocusListWalker; no box-only widget below a ListBox",
+        "Pile children are ('pack'), ('given', n) or ('weight', w) (weights share the rows of a Pile that is itself given a height: a "
+        "'given' child of a Pile, a box column, or the root; in a flow Pile a weighted child is packed; no weights in a Pile that fills a "
+        "Frame/Overlay slot); Columns children are ('given', w) or, for leaves, ('weight', w), and all columns fit; GridFlow cells are "
+        "one-row leaves of the GridFlow's cell width and a GridFlow is never constructed at exactly its natural width (there urwid keeps "
+        "the constructor's display widget with its pref_col state); every ListBox item is visible and has >= 1 row (ListBox up/down never "
+        "scroll: the scrolling view is C07's model); ListBox body is a SimpleFocusListWalker; no box-only widget below a ListBox",
         "page up / page down inside a ListBox and TreeListBox are not covered (cases with a ListBox never send page keys)",
         "every widget object occurs at most once in the tree (no aliasing, no cycles)",
         "exceptions raised by render() are recorded as observations, not judged (C07 judges the ListBox view)",
